@@ -431,9 +431,9 @@ def check_invalid(case):
     for label, fn in (("hp2dec", a.hp2dec), ("HPAngle()", a.HPAngle)):
         try:
             r = fn(h)
-        except ValueError:
+        except Exception:      # noqa: "rejected with an error" - the statement names no exception type
             continue
-        raise Fail("%s: accepted an HP value with a minutes or seconds field of 60 or more" % label, expected="ValueError",
+        raise Fail("%s: accepted an HP value with a minutes or seconds field of 60 or more" % label, expected="an error",
                    observed={"hp": h, "result": repr(r)}, bucket=label + " accepts invalid HP")
     # the vectorised HP-to-decimal conversion: the invalid value among valid ones of the same magnitude class
     import numpy as np
@@ -441,9 +441,9 @@ def check_invalid(case):
     arr = np.array([side, h, -side] if case["neg"] else [h, side])
     try:
         r = a.hp2dec_v(arr)
-    except ValueError:
+    except Exception:          # noqa
         return
-    raise Fail("hp2dec_v: accepted an HP value with a minutes or seconds field of 60 or more", expected="ValueError",
+    raise Fail("hp2dec_v: accepted an HP value with a minutes or seconds field of 60 or more", expected="an error",
                observed={"hp": arr.tolist(), "result": repr(r)}, bucket="hp2dec_v accepts invalid HP")
 
 
